@@ -2,8 +2,23 @@
 annotations`` - the parser needs evaluated annotations (see finding F-C16)."""
 
 
-def extended_class(cls):
-    """A subclass adding public members with properly evaluated annotations (C16)."""
+def extended_class(cls, variant=0):
+    """A subclass adding public members with properly evaluated annotations (C16).
+    variant 1 is a DIFFERENT class with the same __module__/__qualname__/__name__ but other members."""
+    if variant == 1:
+        class Extended(cls):  # noqa: F811
+            def other_method(self, flag: bool = False, times: int = 2) -> str:
+                """Another extra method."""
+                return "other" * times
+
+            @property
+            def backlog(self) -> int:
+                """Read-only property of the second variant."""
+                return 11
+
+        Extended.__name__ = cls.__name__
+        return Extended
+
     class Extended(cls):
         def extra_method(self, count: int, label: str = "x") -> str:
             """Returns a label repeated count times."""
